@@ -62,14 +62,17 @@ def decodeNibbles : List Nib → Bytes
   | a :: b :: rest => ((nibByte a <<< 4) ||| nibByte b) :: decodeNibbles rest
   | _ => []
 
-def hexToCompact (hex : List Nib) : Bytes :=
-  let terminator : UInt8 := if hasTerm hex then 1 else 0
-  let hex := if hasTerm hex then hex.dropLast else hex
+/-- the body of `hexToCompact` once the terminator flag `t` has been split off: flag byte (`t<<5`, odd flag `1<<4`,
+    first nibble when the count is odd) followed by the packed nibbles. -/
+def compactOf (t : UInt8) (hex : List Nib) : Bytes :=
   if hex.length % 2 = 1 then
     match hex with
-    | h :: rest => ((terminator <<< 5) ||| ((1 : UInt8) <<< 4) ||| nibByte h) :: decodeNibbles rest
-    | [] => [terminator <<< 5]
-  else (terminator <<< 5) :: decodeNibbles hex
+    | h :: rest => ((t <<< 5) ||| ((1 : UInt8) <<< 4) ||| nibByte h) :: decodeNibbles rest
+    | [] => [t <<< 5]
+  else (t <<< 5) :: decodeNibbles hex
+
+def hexToCompact (hex : List Nib) : Bytes :=
+  if hasTerm hex then compactOf 1 hex.dropLast else compactOf 0 hex
 
 /-- `compactToHex`; `none` = the Go function panics (`base[0]` on an empty input: index out of range). -/
 def compactToHex (compact : Bytes) : Option (List Nib) :=
@@ -255,6 +258,43 @@ def del : Node → List Nib → Node
   | .value _, _ => .nil
   | .nil, _ => .nil
 
+/-! ## public API histories -/
+
+/-- one operation of a history. Everything that is not an update or delete (get, Hash, Commit, reopen from the
+    committed root, SetCacheLimit, iterate, Prove) must leave the content unchanged: the model treats it as a no-op and
+    the correspondence harness checks that the real code agrees. -/
+inductive Op where
+  | update (k v : Bytes)
+  | delete (k : Bytes)
+  | other
+
+def step (t : Node) : Op → Option Node
+  | .update k v => tryUpdate t k v
+  | .delete k => tryDelete t k
+  | .other => some t
+
+/-- run a history from trie `t`; `none` = some step panicked. -/
+def runFrom (t : Node) : List Op → Option Node
+  | [] => some t
+  | op :: ops =>
+    match step t op with
+    | none => none
+    | some t' => runFrom t' ops
+
+def run (ops : List Op) : Option Node := runFrom .nil ops
+
+/-- the reference finite map (as a function) after a history: the Spec of the content. -/
+def absStep (m : Bytes → Option Bytes) : Op → Bytes → Option Bytes
+  | .update k v => fun k' => if k' = k then (if v.length ≠ 0 then some v else none) else m k'
+  | .delete k => fun k' => if k' = k then none else m k'
+  | .other => m
+
+def absFrom (m : Bytes → Option Bytes) : List Op → Bytes → Option Bytes
+  | [] => m
+  | op :: ops => absFrom (absStep m op) ops
+
+def absOf (ops : List Op) : Bytes → Option Bytes := absFrom (fun _ => none) ops
+
 /-! ## trie/hasher.go — collapsed node as an RLP item, embedding rule, root hash (for an arbitrary hash function `H`) -/
 
 /-- `store`: a collapsed node whose RLP is shorter than 32 bytes stays embedded in its parent, else it is replaced
@@ -289,6 +329,13 @@ def toList : Node → List (List Nib × Bytes)
   | .value v => [([], v)]
   | .short k c => (toList c).map fun kv => (k ++ kv.1, kv.2)
   | .full cs => (List.finRange 17).flatMap fun i => (toList (cs i)).map fun kv => (i :: kv.1, kv.2)
+
+/-- iteration order on hex keys: lexicographic on nibbles (the terminator 16 sorts last at its position). -/
+def keyLt : List Nib → List Nib → Bool
+  | [], [] => false
+  | [], _ :: _ => true
+  | _ :: _, [] => false
+  | a :: as, b :: bs => if a.val < b.val then true else if b.val < a.val then false else keyLt as bs
 
 /-! ## Spec: denotation, canonical shape, Yellow-Paper construction -/
 
